@@ -418,7 +418,23 @@ impl<K: HashKind> Sut<K> {
         let got_root = fin.root().into_inner();
         let nontriv = new_state.len() >= 2 || view.len() >= 2;
         rep.eval(root_prop, nontriv);
+        if on_overlay {
+            rep.eval("C02", nontriv);
+        }
         if got_root != new_root {
+            if on_overlay {
+                rep.fail(
+                    "C02",
+                    "finished-root-mismatch:on-overlay",
+                    format!(
+                        "{ctx}: FinishedSession::root {} != reference {} for a session on an overlay chain ({} -> {} keys)",
+                        hex8(&got_root),
+                        hex8(&new_root),
+                        view.len(),
+                        new_state.len()
+                    ),
+                );
+            }
             rep.fail(
                 root_prop,
                 "finished-root-mismatch",
